@@ -43,14 +43,21 @@ def cmd_import(src, n, seed_id, prop):
         # pristine: demo passes
         flags = os.environ.get("SEED_DEMO_FLAGS", "")
         meta["demo_flags"] = flags
-        rc0, out0 = sh(f"{env_target} cargo test --offline {flags} --test seed_demo 2>&1", wt)
+        # SEED_DEMO_MIRI=1: the demonstration observes UB and needs the interpreter
+        test = "cargo +nightly miri test" if os.environ.get("SEED_DEMO_MIRI") else "cargo test"
+        if os.environ.get("SEED_DEMO_MIRI"):
+            env_target = "CARGO_TARGET_DIR=/tmp/seed-target-miri MIRIFLAGS='-Zmiri-disable-isolation'"
+            meta["demo_observer"] = "cargo +nightly miri test"
+        rc0, out0 = sh(f"{env_target} {test} --offline {flags} --test seed_demo 2>&1", wt)
         meta["verified"]["demo_passes_on_pristine"] = rc0 == 0
         # patched
         rc, out = sh(f"git apply --check {patch} && git apply {patch}", wt)
         meta["verified"]["patch_applies"] = rc == 0
-        rcb, outb = sh(f"{env_target} cargo build --offline 2>&1", wt)
+        rcb, outb = sh(f"CARGO_TARGET_DIR=/tmp/seed-target cargo build --offline 2>&1", wt)
         meta["verified"]["compiles"] = rcb == 0
-        rc1, out1 = sh(f"{env_target} cargo test --offline {flags} --test seed_demo 2>&1", wt)
+        rc1, out1 = sh(f"{env_target} {test} --offline {flags} --test seed_demo 2>&1", wt)
+        if os.environ.get("SEED_DEMO_MIRI"):
+            env_target = "CARGO_TARGET_DIR=/tmp/seed-target"
         meta["verified"]["demo_fails_with_patch"] = rc1 != 0
         os.remove(os.path.join(wt, "tests", "seed_demo.rs"))
         lines, failed = [], []
